@@ -69,6 +69,18 @@ def run(tier, seed, selftest=False, replay=None):
             idx = [i + 1 for i, u in enumerate(c["u"]) if u["k"] == "C"]
             rnd.shuffle(idx)
             c["queries"] = sorted(idx[:nq])
+            # tables with a parameter bounded by a sibling: the instantiations with the *same* type in both slots, projected in the
+            # dependent one (D<g, in g>, D<g, out g>) - shapes instantiate_type_constructor produces
+            tps = c["ct"].get("D", {}).get("tp", [])
+            if len(tps) == 2 and tps[1]["b"] and tps[1]["b"][0]["k"] == "V" and tps[1]["b"][0]["n"] == tps[0]["n"]:
+                for gname in ("Number", "Any"):
+                    gt = {"k": "C", "n": gname, "a": []}
+                    for pol in ("in", "out"):
+                        q = {"k": "C", "n": "D", "a": [gt, {"k": "W", "n": pol, "a": [gt]}]}
+                        if q not in c["u"]:
+                            c["u"].append(q)
+                        c["queries"].append(c["u"].index(q) + 1)
+                c["queries"] = sorted(set(c["queries"]))
             vq = []
             for qi in c["queries"][:3]:
                 g = c["u"][qi - 1]
